@@ -256,6 +256,8 @@ CasesOf(T, n) ==
      \o <<Rec(b + 1, b, "paren", paren, NoVec, NoVec, "")>>
      \* the same without the pair around the whole query: (A) AND (B) begins and ends with parentheses that do not belong together
      \o <<Rec(b + 11, b, "paren", Wrap(T, 1, <<>>, {}, TRUE, FALSE), NoVec, NoVec, "inner")>>
+     \* the fully parenthesised print typed without any optional blank: (-12) , (w)^(2)
+     \o <<Rec(b + 12, b, "ws", paren, WsVec(paren.toks, "tight"), CaseVec(paren.toks, "tight"), "tight paren")>>
      \o <<Rec(b + 2, b, "ws", base, WsVec(base.toks, "tight"), CaseVec(base.toks, "tight"), "tight")>>
      \o [i \in 1..WsPerTree |-> Rec(b + 2 + i, b, "ws", base, WsVec(base.toks, "rand"), CaseVec(base.toks, "rand"), "rand")]
      \o (LET js == SetToSeq(jreal) IN [i \in 1..Len(js) |-> Rec(b + 20 + i, b, "juxt", js[i], NoVec, NoVec, "")])
